@@ -6,19 +6,28 @@ Model: `Gossamer/Model/C06.lean` (`insertAt`/`insertInspector`, `removeAt`/`remo
 database.  Spec: the ordered map `specAll [] ops` of the history and its Merkle root `specRoot`
 (C01: hash of the encoding of the canonical trie `build`).
 
-FULL STATEMENT (comment; proved below for histories that stay inside one session, the rest is
-covered by the correspondence run):
-  for every history `ops` of put / del / get / commit / reopen on a fresh `TrieDB` over an empty
-  database, no op fails, `Hash()` at the end is `specRoot ver H (specAll [] ops)`, and a fresh
-  `NewTrieDB(root, db)` returns `OMap.get k (specAll [] ops)` for every key `k`.
-* `C06_root_eq_spec_partial`   the root clause for every history without an intermediate
-                               commit / reopen (extra hypothesis = exactly that)
-* `C06_reopen_partial`         the reopen clause for the same histories (H collision-free, decoder
-                               right on the nodes of the committed trie); `C06_reopen_collision`
-                               states the collision clause explicitly
-* `C06_threshold`              `NewValue` hashes a value iff V1 and longer than 32 bytes
+* `C06_root_eq_spec`  THE FULL STATEMENT: for every history `ops` of put / del / get / commit / reopen
+                      on a fresh `TrieDB` over an empty database (V0 and V1) no op fails, `Hash()`
+                      at the end is `specRoot ver H (specAll [] ops)`, and a fresh
+                      `NewTrieDB(root, db)` returns `OMap.get k (specAll [] ops)` for every key `k`.
+                      Hypotheses: `HashOK` on the finite set `HashedIn` of strings hashed along the
+                      history (32-byte digests, no collision, no cycle of hash references) and the
+                      decoder hypothesis `DecodesHist` (`codec.Decode` inverts the node encoding:
+                      C07).  `C06_reopen` is its second clause.
+* `C06_root_eq_spec_partial`, `C06_reopen_partial`, `C06_reopen_collision`, `C06_history_independent`
+                      the one-session special case (no commit / reopen inside the history) under
+                      weaker hypotheses: the root clause needs nothing about the hash; the reopen
+                      clause needs collision-freeness on `HashedIn` only, stated as an explicit
+                      collision clause in `C06_reopen_collision`.
+* `C06_threshold`     `NewValue` hashes a value iff V1 and longer than 32 bytes.
+Proof: the in-memory handle tree always stands for THE canonical trie of the current map
+(`tInsert` = the in-memory trie's `insert`, `tRemove`, C01's `Canon`/`canon_unique`/`Rep`), relative
+to the trie `T0` committed last (`abs`, `Ok`); `commit` produces the spec encoding (`encNew_ok`);
+rows scheduled for deletion belong to positions of `T0` that the new tree does not refer to, and
+distinct positions have distinct rows (`rows_inj`), so the database holds the new trie afterwards.
 -/
 import Gossamer.Lib.TrieDBReopen
+import Gossamer.Lib.TrieDBMulti
 set_option linter.unusedSectionVars false
 set_option linter.unusedSimpArgs false
 namespace Gossamer.C06
@@ -87,41 +96,173 @@ def DecodesTrie (c : Cfg) (t : Trie) : Prop :=
   c.dec [0] = some .empty ∧
   ∀ n, NodeOf n t → c.dec (encodeNode c.ver c.H n) = some (viewOf c.ver c.H n)
 
-/-- **Reopen.**  After any history of puts, deletes and reads on a fresh `TrieDB` over an empty
-    database and a `commit`, a fresh `NewTrieDB(root, db)` returns for EVERY key `k` (stored or not)
-    exactly `get k` of the resulting map: the stored value for stored keys, `nil` for all others.
-    Hypotheses: `H` has 32-byte digests and no collisions (see `C06_reopen_collision` for the
-    explicit collision clause), and the decoder inverts the encoding on the nodes of the committed
-    trie (`build` of the map: the trie of the spec). -/
+/-- the strings that get hashed along a history that starts from the map `es`: the empty node `[0]`,
+    and the encoding of every node and every stored-by-hash value of every trie the history can
+    commit (`build` of the map after each prefix of the history).  A finite set. -/
+def HashedIn (c : Cfg) (es : Entries) (ops : List Op) (x : Bytes) : Prop :=
+  x = [0] ∨ ∃ j,
+    (∃ n, NodeOf n (build (specAll es (ops.take j))) ∧ x = encodeNode c.ver c.H n) ∨
+    (∃ k, lookup (build (specAll es (ops.take j))) k = some x ∧ mustBeHashed c.ver x = true)
+
+theorem covers_hashedIn (c : Cfg) (es : Entries) (ops : List Op) (j : Nat) :
+    Covers c.ver c.H (HashedIn c es ops) (build (specAll es (ops.take j))) :=
+  ⟨fun n hn => Or.inr ⟨j, Or.inl ⟨n, hn, rfl⟩⟩, fun k v hk hm => Or.inr ⟨j, Or.inr ⟨k, hk, hm⟩⟩⟩
+
+/-- **Reopen (one session).**  After any history of puts, deletes and reads on a fresh `TrieDB` over
+    an empty database and a `commit`, a fresh `NewTrieDB(root, db)` returns for EVERY key `k` (stored
+    or not) exactly `get k` of the resulting map: the stored value for stored keys, `nil` for all
+    others.  Hypotheses: 32-byte digests; `H` has no collision among the (finitely many) strings
+    hashed along the history (`HashedIn`; see `C06_reopen_collision` for the explicit collision
+    clause); the decoder inverts the encoding on the nodes of the committed trie. -/
 theorem C06_reopen_partial (c : Cfg) (ops : List Op) (hs : ∀ op ∈ ops, op.inSession = true)
-    (hlen : ∀ x, (c.H x).length = 32) (hinj : ∀ a b, c.H a = c.H b → a = b)
+    (hlen : ∀ x, (c.H x).length = 32) (hinj : InjOn c.H (HashedIn c [] ops))
     (hdec : DecodesTrie c (build (specAll [] ops))) :
     ∃ s s', execAll c (St.init c.H) ops = .ok s ∧ commit c.H s = .ok s' ∧
       s'.rootHash = specRoot c.ver c.H (specAll [] ops) ∧
       ∀ k, doGet c (reopenAt s') k = OMap.get k (specAll [] ops) := by
   obtain ⟨s, t, h1, hs1, hr1⟩ := sess_exec c hdec.1 ops hs _ nil [] (sess_init c) Rep.empty
   have ht : t = build (specAll [] ops) := hr1.eq_build
-  obtain ⟨s', h2, h3, h4⟩ := sess_reopen_get c hdec.1 hlen hinj hs1 (by rw [ht]; exact hdec.2)
+  have hcov : Covers c.ver c.H (HashedIn c [] ops) t := by
+    have := covers_hashedIn c [] ops ops.length
+    rw [List.take_length] at this
+    rw [ht]; exact this
+  obtain ⟨s', h2, h3, h4⟩ := sess_reopen_get c hdec.1 hlen hinj (Or.inl rfl) hs1 hcov
+    (by rw [ht]; exact hdec.2)
   refine ⟨s, s', h1, h2, by rw [h3, root_of_rep c.ver c.H hr1], fun k => ?_⟩
   rw [h4 k, hr1.lookup_eq]
 
-/-- the same with the collision clause explicit: either `H` has a collision, or the fresh instance
-    agrees with the map on every key -/
+/-- the same with the collision clause explicit: either two different strings hashed along the
+    history collide, or the fresh instance agrees with the map on every key -/
 theorem C06_reopen_collision (c : Cfg) (ops : List Op) (hs : ∀ op ∈ ops, op.inSession = true)
     (hlen : ∀ x, (c.H x).length = 32) (hdec : DecodesTrie c (build (specAll [] ops))) :
-    (∃ a b, a ≠ b ∧ c.H a = c.H b) ∨
+    (∃ a b, HashedIn c [] ops a ∧ HashedIn c [] ops b ∧ a ≠ b ∧ c.H a = c.H b) ∨
     ∃ s s', execAll c (St.init c.H) ops = .ok s ∧ commit c.H s = .ok s' ∧
       ∀ k, doGet c (reopenAt s') k = OMap.get k (specAll [] ops) := by
-  by_cases hcol : ∃ a b, a ≠ b ∧ c.H a = c.H b
+  by_cases hcol : ∃ a b, HashedIn c [] ops a ∧ HashedIn c [] ops b ∧ a ≠ b ∧ c.H a = c.H b
   · exact Or.inl hcol
   · right
-    have hinj : ∀ a b, c.H a = c.H b → a = b := by
-      intro a b hab
+    have hinj : InjOn c.H (HashedIn c [] ops) := by
+      intro a b ha hb hab
       by_cases hne : a = b
       · exact hne
-      · exact absurd ⟨a, b, hne, hab⟩ hcol
+      · exact absurd ⟨a, b, ha, hb, hne, hab⟩ hcol
     obtain ⟨s, s', h1, h2, _, h4⟩ := C06_reopen_partial c ops hs hlen hinj hdec
     exact ⟨s, s', h1, h2, h4⟩
+
+/-! ### histories with intermediate commits and fresh instances -/
+
+/-- the decoder along a history: it decodes the empty node and inverts the node encoding on the
+    nodes of every trie that the history can commit (`build` of the map after every prefix) -/
+def DecodesHist (c : Cfg) (es : Entries) (ops : List Op) : Prop :=
+  c.dec [0] = some .empty ∧
+  ∀ j n, NodeOf n (build (specAll es (ops.take j))) →
+    c.dec (encodeNode c.ver c.H n) = some (viewOf c.ver c.H n)
+
+theorem decodesHist_tail {c : Cfg} {es : Entries} {op : Op} {r : List Op}
+    (h : DecodesHist c es (op :: r)) : DecodesHist c (specStep es op) r := by
+  refine ⟨h.1, fun j n hn => ?_⟩
+  have := h.2 (j + 1) n
+  simp only [List.take_succ_cons, specAll, List.foldl_cons] at this
+  exact this hn
+
+/-- `Dom` contains everything hashed along the history -/
+def CoversHist (c : Cfg) (Dom : Bytes → Prop) (es : Entries) (ops : List Op) : Prop :=
+  ∀ j, Covers c.ver c.H Dom (build (specAll es (ops.take j)))
+
+theorem coversHist_tail {c : Cfg} {Dom : Bytes → Prop} {es : Entries} {op : Op} {r : List Op}
+    (h : CoversHist c Dom es (op :: r)) : CoversHist c Dom (specStep es op) r := by
+  intro j
+  have := h (j + 1)
+  simp only [List.take_succ_cons, specAll, List.foldl_cons] at this
+  exact this
+
+theorem sessG_init (c : Cfg) (Dom : Bytes → Prop) (hlen : ∀ x, (c.H x).length = 32)
+    (hdec0 : c.dec [0] = some .empty) : SessG c Dom (St.init c.H) nil nil :=
+  ⟨⟨fun h => absurd rfl h, trivial, fun n hn => hn.elim, hdec0, hlen⟩,
+    ⟨fun n hn => hn.elim, fun k v h => by simp at h⟩, fun k v h => by simp at h,
+    Or.inl ⟨rfl, rfl, rfl, deadOk_nil _ _ _ _⟩⟩
+
+/-- the invariant holds along every history -/
+theorem exec_inv (c : Cfg) {Dom : Bytes → Prop} (hH : HashOK c.H Dom) (ops : List Op) :
+    ∀ (s : St) (T0 t : Trie) (es : Entries), SessG c Dom s T0 t → Rep t es → DecodesHist c es ops →
+      CoversHist c Dom es ops →
+      ∃ s' T0' t', execAll c s ops = .ok s' ∧ SessG c Dom s' T0' t' ∧ Rep t' (specAll es ops) := by
+  induction ops with
+  | nil => intro s T0 t es hs hr _ _; exact ⟨s, T0, t, rfl, hs, hr⟩
+  | cons op r ih =>
+    intro s T0 t es hs hr hd hcv
+    have hd' := decodesHist_tail hd
+    have hcv' := coversHist_tail hcv
+    have hcovt : Covers c.ver c.H Dom t := by
+      have := hcv 0
+      simp only [List.take_zero, specAll, List.foldl_nil] at this
+      rw [hr.eq_build]; exact this
+    have hdec : ∀ n, NodeOf n t → c.dec (encodeNode c.ver c.H n) = some (viewOf c.ver c.H n) := by
+      intro n hn
+      have := hd.2 0 n
+      simp only [List.take_zero, specAll, List.foldl_nil] at this
+      rw [hr.eq_build] at hn
+      exact this hn
+    cases op with
+    | put k v =>
+      obtain ⟨s1, h1, hs1⟩ := sessG_put c hs k v
+      obtain ⟨s', T0', t', h2, hs2, hr2⟩ := ih s1 T0 _ _ hs1 (rep_tInsert hr k v) hd' hcv'
+      exact ⟨s', T0', t', by simp only [execAll, execOp, h1, h2], hs2, hr2⟩
+    | del k =>
+      obtain ⟨s1, h1, hs1⟩ := sessG_del c hs hr.canon k
+      obtain ⟨s', T0', t', h2, hs2, hr2⟩ := ih s1 T0 _ _ hs1 (rep_tRemove hr k) hd' hcv'
+      exact ⟨s', T0', t', by simp only [execAll, execOp, h1, h2], hs2, hr2⟩
+    | get k =>
+      obtain ⟨s', T0', t', h2, hs2, hr2⟩ := ih s T0 t es hs hr hd' hcv'
+      exact ⟨s', T0', t', by simp only [execAll, execOp, h2], hs2, hr2⟩
+    | commit =>
+      obtain ⟨s1, T1, h1, hs1, _, _⟩ := sessG_commit c hH hs hr hcovt hdec
+      obtain ⟨s', T0', t', h2, hs2, hr2⟩ := ih s1 T1 t es hs1 hr hd' hcv'
+      exact ⟨s', T0', t', by simp only [execAll, execOp, h1, h2], hs2, hr2⟩
+    | reopen =>
+      obtain ⟨s1, T1, h1, hs1, hroot, hT⟩ := sessG_commit c hH hs hr hcovt hdec
+      obtain ⟨s', T0', t', h2, hs2, hr2⟩ := ih (reopenAt s1) T1 t es (sessG_reopen c hs1 hroot hT) hr hd' hcv'
+      exact ⟨s', T0', t', by simp only [execAll, execOp, h1, Res.map, h2], hs2, hr2⟩
+    | bad =>
+      obtain ⟨s', T0', t', h2, hs2, hr2⟩ := ih s T0 t es hs hr hd' hcv'
+      exact ⟨s', T0', t', by simp only [execAll, execOp, h2], hs2, hr2⟩
+
+/-- **Root and reopen, every history.**  For EVERY history of puts, deletes, reads, intermediate
+    commits (`Hash()`) and fresh instances (`NewTrieDB(root, db)`) on a `TrieDB` that starts over an
+    empty database, in either version: no op fails, the final commit succeeds, its root hash is the
+    spec root of the resulting map, and a fresh instance opened at that root returns `get k` of the
+    map for every key `k` — the stored value for stored keys, `nil` for all others.
+    Hypotheses: `HashOK` on the finitely many strings hashed along the history (`HashedIn`: 32-byte
+    digests, no collision among them, no cycle of hash references among them) and the decoder
+    hypothesis `DecodesHist` (C07). -/
+theorem C06_root_eq_spec (c : Cfg) (ops : List Op) (hH : HashOK c.H (HashedIn c [] ops))
+    (hdec : DecodesHist c [] ops) :
+    ∃ s s', execAll c (St.init c.H) ops = .ok s ∧ commit c.H s = .ok s' ∧
+      s'.rootHash = specRoot c.ver c.H (specAll [] ops) ∧
+      ∀ k, doGet c (reopenAt s') k = OMap.get k (specAll [] ops) := by
+  obtain ⟨s, T0, t, h1, hs, hr⟩ := exec_inv c hH ops _ nil nil []
+    (sessG_init c _ hH.len hdec.1) Rep.empty hdec (covers_hashedIn c [] ops)
+  have hdect : ∀ n, NodeOf n t → c.dec (encodeNode c.ver c.H n) = some (viewOf c.ver c.H n) := by
+    intro n hn
+    have := hdec.2 ops.length n
+    simp only [List.take_length] at this
+    rw [hr.eq_build] at hn
+    exact this hn
+  have hcovt : Covers c.ver c.H (HashedIn c [] ops) t := by
+    have := covers_hashedIn c [] ops ops.length
+    rw [List.take_length] at this
+    rw [hr.eq_build]; exact this
+  obtain ⟨s', T1, h2, hs', hroot, hT⟩ := sessG_commit c hH hs hr hcovt hdect
+  refine ⟨s, s', h1, h2, by rw [hroot, root_of_rep c.ver c.H hr], fun k => ?_⟩
+  rw [sessG_fresh_get c hs' hroot hT k, hr.lookup_eq]
+
+/-- the reopen clause on its own -/
+theorem C06_reopen (c : Cfg) (ops : List Op) (hH : HashOK c.H (HashedIn c [] ops))
+    (hdec : DecodesHist c [] ops) :
+    ∃ s s', execAll c (St.init c.H) ops = .ok s ∧ commit c.H s = .ok s' ∧
+      ∀ k, doGet c (reopenAt s') k = OMap.get k (specAll [] ops) := by
+  obtain ⟨s, s', h1, h2, _, h4⟩ := C06_root_eq_spec c ops hH hdec
+  exact ⟨s, s', h1, h2, h4⟩
 
 /-- `NewValue` stores a value by hash exactly in version 1 and when it is longer than 32 bytes
     (the threshold of the spec encoding, `mustBeHashed`) -/
@@ -191,5 +332,70 @@ example : DecodesTrie toyC exT := by
       · have : exCs i = nil := by simp [exCs, h0, h1]
         rw [this] at hi
         exact absurd hi (by simp [NodeOf])
+
+/-! ### non-vacuity of `HashOK` and `DecodesHist` -/
+
+def v40 : Bytes := List.replicate 40 7
+def exOps : List Op := [.put [0x12] v40, .commit, .put [0x12] v40, .reopen, .del [0x34], .get [0x12]]
+def exLeaf : Trie := leaf [1, 2] v40
+def exEnc : Bytes := encodeNode Ver.v1 toyH exLeaf
+
+theorem exSpec : ∀ j, build (specAll [] (exOps.take j)) = nil ∨ build (specAll [] (exOps.take j)) = exLeaf := by
+  intro j
+  match j with
+  | 0 => left; rfl
+  | 1 => right; rfl
+  | 2 => right; rfl
+  | 3 => right; rfl
+  | 4 => right; rfl
+  | 5 => right; rfl
+  | n + 6 =>
+    right
+    have : exOps.take (n + 6) = exOps := List.take_of_length_le (by simp [exOps])
+    rw [this]; rfl
+
+theorem exHashed (x : Bytes) (h : HashedIn toyC [] exOps x) : x = [0] ∨ x = exEnc ∨ x = v40 := by
+  rcases h with h | ⟨j, ⟨n, hn, hx⟩ | ⟨k, hk, _⟩⟩
+  · exact Or.inl h
+  · rcases exSpec j with e | e
+    · rw [e] at hn; exact hn.elim
+    · rw [e] at hn
+      simp only [exLeaf, NodeOf] at hn
+      subst hn
+      exact Or.inr (Or.inl hx)
+  · rcases exSpec j with e | e
+    · rw [e] at hk; simp at hk
+    · rw [e] at hk
+      simp only [exLeaf, lookup_leaf] at hk
+      split at hk
+      · cases hk; exact Or.inr (Or.inr rfl)
+      · cases hk
+
+theorem exHashOK : HashOK toyC.H (HashedIn toyC [] exOps) := by
+  refine ⟨fun x => by simp [toyC, toyH], ?_, ⟨fun x => if x.length = 34 then 1 else 0, ?_⟩, Or.inl rfl⟩
+  · intro a b ha hb hab
+    rcases exHashed a ha with rfl | rfl | rfl <;> rcases exHashed b hb with rfl | rfl | rfl <;>
+      first | rfl | (exfalso; revert hab; decide)
+  · intro x y hx hy hinf
+    rcases exHashed x hx with rfl | rfl | rfl <;> rcases exHashed y hy with rfl | rfl | rfl <;>
+      first | (exfalso; revert hinf; decide) | decide
+
+theorem exDecodes : DecodesHist toyC [] exOps := by
+  refine ⟨rfl, fun j n hn => ?_⟩
+  rcases exSpec j with e | e
+  · rw [e] at hn; exact hn.elim
+  · rw [e] at hn
+    simp only [exLeaf, NodeOf] at hn
+    subst hn
+    rfl
+
+/-- non-vacuity of the hypotheses of the full theorem: for a history with an intermediate commit, a
+    re-put of an equal (hashed, 40-byte) value, a fresh instance and a delete of an absent key, the
+    toy hash (digest = length) is `HashOK` on the strings hashed along the history and the decoder
+    of the model satisfies `DecodesHist`; so the theorem applies -/
+example : ∃ s s', execAll toyC (St.init toyC.H) exOps = .ok s ∧ commit toyC.H s = .ok s' ∧
+    s'.rootHash = specRoot toyC.ver toyC.H (specAll [] exOps) ∧
+    ∀ k, doGet toyC (reopenAt s') k = OMap.get k (specAll [] exOps) :=
+  C06_root_eq_spec toyC exOps exHashOK exDecodes
 
 end Gossamer.C06
